@@ -1,4 +1,4 @@
-// GENERATED on every run by vlib/extract.py from /tmp/clean0 -- do not edit
+// GENERATED on every run by vlib/extract.py from /tmp/refcheck-2660-r2-2_diff -- do not edit
 #![allow(unused_imports, unused_variables, unused_mut, dead_code, unused_parens, unused_braces, non_snake_case)]
 #![feature(allocator_api)]
 use vstd::prelude::*;
@@ -301,7 +301,7 @@ pub struct QualifierKey(pub SmallString);
 pub struct Qualifiers {
     pub qualifiers: Vec<(QualifierKey, SmallString)>,
 }
-// ---- unit T.MixedQualifierKey  <= purl/src/qualifiers.rs:553 ----
+// ---- unit T.MixedQualifierKey  <= purl/src/qualifiers.rs:554 ----
 pub enum MixedQualifierKey<S> {
     Lower(S),
     Mixed(S),
@@ -545,7 +545,7 @@ pub proof fn lemma_canon_of_valid(s: Seq<char>)
     lemma_lower_seq_ascii(s);
 }
 
-// ---- unit U-qkey.is_valid_qualifier_name  <= purl/src/qualifiers.rs:513 ----
+// ---- unit U-qkey.is_valid_qualifier_name  <= purl/src/qualifiers.rs:514 ----
 exec const ALLOWED_SPECIAL_CHARS: &'static [char] ensures ALLOWED_SPECIAL_CHARS@ =~= seq!['.', '-', '_'] { &['.', '-', '_'] }
 pub fn is_valid_qualifier_name(k: &str) -> (r: bool)
     ensures r == valid_key(k@)
@@ -564,7 +564,7 @@ pub fn is_valid_qualifier_name(k: &str) -> (r: bool)
         !all_ok0 ==> exists|i: int| 0 <= i < k@.len() && !key_char(#[trigger] k@[i]),
 { if !(c.is_ascii_alphanumeric() || x_slice_contains(ALLOWED_SPECIAL_CHARS, &c)) { all_ok0 = false; break; } } all_ok0 })
 }
-// ---- unit U-qkey.check_qualifier_key  <= purl/src/qualifiers.rs:593 ----
+// ---- unit U-qkey.check_qualifier_key  <= purl/src/qualifiers.rs:594 ----
 pub fn check_qualifier_key<S>(k: S) -> (r: Result<MixedQualifierKey<S>, ParseError>)
 where S: AsRef<str>,
     ensures
@@ -593,7 +593,7 @@ where S: AsRef<str>,
     }
 }
 impl<S: AsRef<str>> MixedQualifierKey<S> {
-// ---- unit U-qkey.into_key  <= purl/src/qualifiers.rs:566 ----
+// ---- unit U-qkey.into_key  <= purl/src/qualifiers.rs:567 ----
 pub fn into_key(self) -> (r: QualifierKey)
 where SmallString: From<S>,
         requires self.wf()
@@ -616,7 +616,7 @@ where SmallString: From<S>,
     }
 }
 impl<S: AsRef<str>> AsRef<str> for MixedQualifierKey<S> {
-// ---- unit U-qkey.as_ref  <= purl/src/qualifiers.rs:585 ----
+// ---- unit U-qkey.as_ref  <= purl/src/qualifiers.rs:586 ----
     open spec fn text(&self) -> Seq<char> {
         match self { MixedQualifierKey::Lower(s) => s.text(), MixedQualifierKey::Mixed(s) => s.text() }
     }
@@ -629,7 +629,7 @@ fn as_ref(&self) -> (r: &str)
     }
 }
 impl QualifierKey {
-// ---- unit U-qcmp.partial_cmp  <= purl/src/qualifiers.rs:334 ----
+// ---- unit U-qcmp.partial_cmp  <= purl/src/qualifiers.rs:335 ----
 pub fn partial_cmp<S: AsRef<str> + ?Sized>(&self, other: &S) -> (r: Option<Ordering>)
         ensures r == Some(lex_cmp(self.0@, lower_seq(other.text())))
 {
@@ -643,7 +643,7 @@ pub fn eq<S: AsRef<str> + ?Sized>(&self, other: &S) -> (r: bool)
 {
         proof { lemma_lex_eq(self.0@, lower_seq(other.text())); }
 
-        self.partial_cmp(other).map(|o: Ordering| -> (b: bool) ensures b == (o is Equal) { o.is_eq() }).unwrap_or_default()
+        matches!(self.partial_cmp(other), Some(Ordering::Equal))
     }
 }
 impl Qualifiers {
@@ -719,19 +719,19 @@ x_binary_search_keys(&self.qualifiers, key)
 
     }
 }
-// ---- unit T.OccupiedEntry  <= purl/src/qualifiers.rs:421 ----
+// ---- unit T.OccupiedEntry  <= purl/src/qualifiers.rs:422 ----
 pub struct OccupiedEntry<'a, K> {
     pub qualifiers: &'a mut Vec<(QualifierKey, SmallString)>,
     pub index: usize,
     pub key: PhantomData<K>,
 }
-// ---- unit T.VacantEntry  <= purl/src/qualifiers.rs:470 ----
+// ---- unit T.VacantEntry  <= purl/src/qualifiers.rs:471 ----
 pub struct VacantEntry<'a, K> {
     pub qualifiers: &'a mut Vec<(QualifierKey, SmallString)>,
     pub index: usize,
     pub key: MixedQualifierKey<K>,
 }
-// ---- unit T.Entry  <= purl/src/qualifiers.rs:374 ----
+// ---- unit T.Entry  <= purl/src/qualifiers.rs:375 ----
 pub enum Entry<'a, K> {
     Occupied(OccupiedEntry<'a, K>),
     Vacant(VacantEntry<'a, K>),
@@ -971,7 +971,7 @@ where K: AsRef<str>,
     }
 }
 impl<'a, K: AsRef<str>> VacantEntry<'a, K> {
-// ---- unit U-qmap.VacantEntry.insert  <= purl/src/qualifiers.rs:478 ----
+// ---- unit U-qmap.VacantEntry.insert  <= purl/src/qualifiers.rs:479 ----
 pub fn insert<V>(self, value: V) -> (r: &'a mut SmallString)
 where SmallString: From<K> + From<V>,
         requires self.wf()
@@ -1002,7 +1002,7 @@ self.qualifiers.insert(self.index, (self.key.into_key(), SmallString::from(value
     }
 }
 impl<'a, K> OccupiedEntry<'a, K> {
-// ---- unit U-qmap.OccupiedEntry.remove_entry  <= purl/src/qualifiers.rs:429 ----
+// ---- unit U-qmap.OccupiedEntry.remove_entry  <= purl/src/qualifiers.rs:430 ----
 pub fn remove_entry(self) -> (r: (SmallString, SmallString))
         requires self.wf()
         ensures wf_seq(final(self.qualifiers)@), final(self.qualifiers)@ == old(self.qualifiers)@.remove(self.index as int),
@@ -1013,14 +1013,14 @@ pub fn remove_entry(self) -> (r: (SmallString, SmallString))
         let (k, v) = self.qualifiers.remove(self.index);
         (k.0, v)
     }
-// ---- unit U-qmap.OccupiedEntry.get  <= purl/src/qualifiers.rs:435 ----
+// ---- unit U-qmap.OccupiedEntry.get  <= purl/src/qualifiers.rs:436 ----
 pub fn get(&self) -> (r: &str)
         requires self.wf()
         ensures r@ == old(self.qualifiers)@[self.index as int].1@
 {
         &self.qualifiers[self.index].1
     }
-// ---- unit U-qmap.OccupiedEntry.get_mut  <= purl/src/qualifiers.rs:440 ----
+// ---- unit U-qmap.OccupiedEntry.get_mut  <= purl/src/qualifiers.rs:441 ----
 pub fn get_mut(&mut self) -> (r: &mut SmallString)
         requires old(self).wf()
         ensures *r == old(self).qualifiers@[old(self).index as int].1, final(self).index == old(self).index,
@@ -1034,7 +1034,7 @@ pub fn get_mut(&mut self) -> (r: &mut SmallString)
 
         &mut self.qualifiers[self.index].1
     }
-// ---- unit U-qmap.OccupiedEntry.into_mut  <= purl/src/qualifiers.rs:447 ----
+// ---- unit U-qmap.OccupiedEntry.into_mut  <= purl/src/qualifiers.rs:448 ----
 pub fn into_mut(self) -> (r: &'a mut SmallString)
         requires self.wf()
         ensures *r == old(self.qualifiers)@[self.index as int].1,
@@ -1046,7 +1046,7 @@ pub fn into_mut(self) -> (r: &'a mut SmallString)
 
         &mut self.qualifiers[self.index].1
     }
-// ---- unit U-qmap.OccupiedEntry.insert  <= purl/src/qualifiers.rs:454 ----
+// ---- unit U-qmap.OccupiedEntry.insert  <= purl/src/qualifiers.rs:455 ----
 pub fn insert<V>(&mut self, value: V) -> (r: SmallString)
 where SmallString: From<V>,
         requires old(self).wf()
@@ -1063,7 +1063,7 @@ where SmallString: From<V>,
 
         v
     }
-// ---- unit U-qmap.OccupiedEntry.remove  <= purl/src/qualifiers.rs:464 ----
+// ---- unit U-qmap.OccupiedEntry.remove  <= purl/src/qualifiers.rs:465 ----
 pub fn remove(self) -> (r: SmallString)
         requires self.wf()
         ensures wf_seq(final(self.qualifiers)@), final(self.qualifiers)@ == old(self.qualifiers)@.remove(self.index as int),
@@ -1161,7 +1161,7 @@ pub fn remove_typed<Q>(&mut self) where Q: KnownQualifierKey,
         self.remove(Q::KEY);
     }
 }
-// ---- unit T.Iter  <= purl/src/qualifiers.rs:489 ----
+// ---- unit T.Iter  <= purl/src/qualifiers.rs:490 ----
 pub struct Iter<'a>(pub slice::Iter<'a, (QualifierKey, SmallString)>);
 // ---- unit spec.Iter  <= (contracts):0 ----
 
@@ -1188,7 +1188,7 @@ pub fn into_iter(&self) -> (r: Iter<'_>)
     }
 }
 impl<'a> Iter<'a> {
-// ---- unit U-qmap.Iter.next  <= purl/src/qualifiers.rs:494 ----
+// ---- unit U-qmap.Iter.next  <= purl/src/qualifiers.rs:495 ----
 pub fn next(&mut self) -> (r: Option<(&'a QualifierKey, &'a str)>)
         ensures
             old(self).rem().len() == 0 ==> r is None,
@@ -1244,7 +1244,7 @@ where Q: KnownQualifierKey, SmallString: TryFrom<Q>,
     }
 }
 impl<'a, K: AsRef<str>> Entry<'a, K> {
-// ---- unit U-qmap.Entry.or_insert  <= purl/src/qualifiers.rs:383 ----
+// ---- unit U-qmap.Entry.or_insert  <= purl/src/qualifiers.rs:384 ----
 pub fn or_insert<V>(self, default: V) -> (r: &'a mut SmallString)
 where SmallString: From<K> + From<V>,
         requires match self { Entry::Occupied(o) => o.wf(), Entry::Vacant(v) => v.wf() }
@@ -1270,7 +1270,7 @@ where SmallString: From<K> + From<V>,
             Entry::Vacant(v) => v.insert(default),
         }
     }
-// ---- unit U-qmap.Entry.or_insert_with  <= purl/src/qualifiers.rs:396 ----
+// ---- unit U-qmap.Entry.or_insert_with  <= purl/src/qualifiers.rs:397 ----
 pub fn or_insert_with<F, V>(self, default: F) -> (r: &'a mut SmallString)
 where F: FnOnce() -> V, SmallString: From<K> + From<V>,
         requires match self { Entry::Occupied(o) => o.wf(), Entry::Vacant(v) => v.wf() }, default.requires(())
@@ -1297,7 +1297,7 @@ where F: FnOnce() -> V, SmallString: From<K> + From<V>,
             Entry::Vacant(v) => v.insert(default()),
         }
     }
-// ---- unit U-qmap.Entry.and_modify  <= purl/src/qualifiers.rs:408 ----
+// ---- unit U-qmap.Entry.and_modify  <= purl/src/qualifiers.rs:409 ----
 pub fn and_modify<F>(self, f: F) -> (r: Self)
 where F: FnOnce(&mut SmallString),
         requires match self { Entry::Occupied(o) => o.wf(), Entry::Vacant(v) => v.wf() },
@@ -1323,7 +1323,7 @@ where F: FnOnce(&mut SmallString),
     }
 }
 impl Qualifiers {
-// ---- unit U-qmap.index  <= purl/src/qualifiers.rs:614 ----
+// ---- unit U-qmap.index  <= purl/src/qualifiers.rs:615 ----
 pub fn index<K: AsRef<str>>(&self, index: K) -> (r: &SmallString)
         requires self.wf(), valid_key(index.text()) && has_key(self.qualifiers@, lower_ascii_seq(index.text()))
         ensures has_pair(self.qualifiers@, lower_ascii_seq(index.text()), r@)
@@ -1336,7 +1336,7 @@ pub fn index<K: AsRef<str>>(&self, index: K) -> (r: &SmallString)
         };
         value
     }
-// ---- unit U-qmap.index_mut  <= purl/src/qualifiers.rs:627 ----
+// ---- unit U-qmap.index_mut  <= purl/src/qualifiers.rs:628 ----
 pub fn index_mut<K: AsRef<str>>(&mut self, index: K) -> (r: &mut SmallString)
         requires old(self).wf(), valid_key(index.text()) && has_key(old(self).qualifiers@, lower_ascii_seq(index.text()))
         ensures ({
@@ -1399,7 +1399,7 @@ pub fn with_capacity(capacity: usize) -> (r: Self)
     }
 }
 impl QualifierKey {
-// ---- unit U-qkey.as_str  <= purl/src/qualifiers.rs:368 ----
+// ---- unit U-qkey.as_str  <= purl/src/qualifiers.rs:369 ----
 pub fn as_str(&self) -> (r: &str)
         ensures r@ == self.0@
 {
@@ -1407,7 +1407,7 @@ pub fn as_str(&self) -> (r: &str)
     }
 }
 impl<'a> Iter<'a> {
-// ---- unit U-qmap.Iter.next_back  <= purl/src/qualifiers.rs:507 ----
+// ---- unit U-qmap.Iter.next_back  <= purl/src/qualifiers.rs:508 ----
 pub fn next_back(&mut self) -> (r: Option<(&'a QualifierKey, &'a str)>)
         ensures
             old(self).rem().len() == 0 ==> r is None,
@@ -1418,11 +1418,154 @@ pub fn next_back(&mut self) -> (r: Option<(&'a QualifierKey, &'a str)>)
         let (k, v) = self.0.next_back()?;
         Some((k, v.as_str()))
     }
-// ---- unit U-qmap.Iter.size_hint  <= purl/src/qualifiers.rs:499 ----
+// ---- unit U-qmap.Iter.size_hint  <= purl/src/qualifiers.rs:500 ----
 pub fn size_hint(&self) -> (r: (usize, Option<usize>))
         ensures r.0 == self.rem().len(), r.1 == Some(r.0)
 {
         (self.0.len(), Some(self.0.len()))
+    }
+}
+// ---- unit theory.tfi  <= (contracts):0 ----
+// ---- Qualifiers::try_from_iter (C11: construction from pairs) ----
+// R5 (`for` over a caller-supplied iterator): the sequence the argument yields is named by an uninterpreted function;
+// ASSUMED about the caller's iterator: it is finite and lawful (vstd's prophetic iterator laws) -- an endless iterator of
+// distinct valid keys makes the function run out of memory, which no contract can exclude.
+pub uninterp spec fn yielded<I: IntoIterator>(i: I) -> Seq<I::Item>;
+#[verifier::external_body]
+pub fn x_into_iter<I: IntoIterator>(i: I) -> (r: I::IntoIter)
+    ensures
+        vstd::std_specs::iter::IteratorSpec::remaining(&r) == yielded(i),
+        vstd::std_specs::iter::IteratorSpec::obeys_prophetic_iter_laws(&r),
+        vstd::std_specs::iter::IteratorSpec::decrease(&r) is Some,
+{ i.into_iter() }
+/// `iter.size_hint().0`: only a capacity hint, any value
+#[verifier::external_body]
+pub fn x_size_hint_lower<I: Iterator>(i: &I) -> (r: usize)
+{ i.size_hint().0 }
+
+pub open spec fn item_key<K: AsRef<str>, V>(all: Seq<(K, V)>, i: int) -> Seq<char> { lower_ascii_seq(all[i].0.text()) }
+
+/// the first n keys are pairwise different once ASCII-lower-cased
+pub open spec fn tfi_distinct<K: AsRef<str>, V>(all: Seq<(K, V)>, n: int) -> bool {
+    forall|i: int, j: int| 0 <= i < j < n ==> #[trigger] item_key(all, i) != #[trigger] item_key(all, j)
+}
+/// the list holds exactly the first n items: each under its lower-cased key with its value, and nothing else
+pub open spec fn tfi_inv<K: AsRef<str>, V>(all: Seq<(K, V)>, n: int, q: Seq<(QualifierKey, SmallString)>) -> bool
+    where SmallString: From<V>
+{
+    wf_seq(q) && q.len() == n
+    && (forall|i: int| 0 <= i < n ==> valid_key((#[trigger] all[i]).0.text()) && has_key(q, item_key(all, i))
+            && (<SmallString as vstd::std_specs::convert::FromSpec<V>>::obeys_from_spec() ==>
+                    has_pair(q, item_key(all, i), <SmallString as vstd::std_specs::convert::FromSpec<V>>::from_spec(all[i].1)@)))
+    && (forall|p: int| 0 <= p < q.len() ==> exists|i: int| 0 <= i < n && (#[trigger] q[p]).0.0@ == #[trigger] item_key(all, i))
+}
+
+pub proof fn lemma_tfi_step<K: AsRef<str>, V>(all: Seq<(K, V)>, n: int, q: Seq<(QualifierKey, SmallString)>, ix: int, kv: (QualifierKey, SmallString))
+    where SmallString: From<V>
+    requires
+        tfi_inv(all, n, q), tfi_distinct(all, n), 0 <= n < all.len(), 0 <= ix <= q.len(),
+        valid_key(all[n].0.text()), kv.0.0@ == item_key(all, n), !has_key(q, item_key(all, n)),
+        wf_seq(q.insert(ix, kv)),
+        <SmallString as vstd::std_specs::convert::FromSpec<V>>::obeys_from_spec() ==> kv.1 == <SmallString as vstd::std_specs::convert::FromSpec<V>>::from_spec(all[n].1),
+    ensures
+        tfi_inv(all, n + 1, q.insert(ix, kv)), tfi_distinct(all, n + 1),
+{
+    let w = q.insert(ix, kv);
+    assert forall|i: int, j: int| 0 <= i < j < n + 1 implies #[trigger] item_key(all, i) != #[trigger] item_key(all, j) by {
+        if j == n { assert(valid_key(all[i].0.text()) && has_key(q, item_key(all, i))); }
+    }
+    assert forall|i: int| 0 <= i < n + 1 implies valid_key((#[trigger] all[i]).0.text()) && has_key(w, item_key(all, i))
+            && (<SmallString as vstd::std_specs::convert::FromSpec<V>>::obeys_from_spec() ==>
+                    has_pair(w, item_key(all, i), <SmallString as vstd::std_specs::convert::FromSpec<V>>::from_spec(all[i].1)@)) by {
+        if i == n {
+            assert(w[ix] == kv);
+        } else {
+            assert(has_key(q, item_key(all, i)));
+            let p = choose|p: int| 0 <= p < q.len() && #[trigger] q[p].0.0@ == item_key(all, i);
+            if p < ix { assert(w[p] == q[p]); } else { assert(w[p + 1] == q[p]); }
+            if <SmallString as vstd::std_specs::convert::FromSpec<V>>::obeys_from_spec() {
+                let val = <SmallString as vstd::std_specs::convert::FromSpec<V>>::from_spec(all[i].1)@;
+                assert(has_pair(q, item_key(all, i), val));
+                let p2 = choose|p2: int| 0 <= p2 < q.len() && #[trigger] q[p2].0.0@ == item_key(all, i) && q[p2].1@ == val;
+                if p2 < ix { assert(w[p2] == q[p2]); } else { assert(w[p2 + 1] == q[p2]); }
+            }
+        }
+    }
+    assert forall|p: int| 0 <= p < w.len() implies exists|i: int| 0 <= i < n + 1 && (#[trigger] w[p]).0.0@ == #[trigger] item_key(all, i) by {
+        if p == ix { assert(w[p].0.0@ == item_key(all, n)); }
+        else if p < ix {
+            assert(w[p] == q[p]);
+            let i = choose|i: int| 0 <= i < n && q[p].0.0@ == #[trigger] item_key(all, i);
+            assert(w[p].0.0@ == item_key(all, i));
+        } else {
+            assert(w[p] == q[p - 1]);
+            let i = choose|i: int| 0 <= i < n && q[p - 1].0.0@ == #[trigger] item_key(all, i);
+            assert(w[p].0.0@ == item_key(all, i));
+        }
+    }
+}
+
+impl Qualifiers {
+// ---- unit U-qmap.try_from_iter  <= purl/src/qualifiers.rs:33 ----
+pub fn try_from_iter<I, K, V>(items: I) -> (r: Result<Self, ParseError>)
+where I: IntoIterator<Item = (K, V)>, K: AsRef<str>, V: AsRef<str>, SmallString: From<K> + From<V>,
+        ensures match r {
+            // accepted: exactly the given pairs, each under its lower-cased key, strictly ascending; the keys were all valid and pairwise different in any letter case
+            Ok(q) => q.wf() && tfi_inv(yielded(items), yielded(items).len() as int, q.qualifiers@) && tfi_distinct(yielded(items), yielded(items).len() as int),
+            // refused: some key is not a valid key, or two keys are the same up to ASCII case
+            Err(e) => e is InvalidQualifier && ((exists|i: int| 0 <= i < yielded(items).len() && !valid_key(#[trigger] yielded(items)[i].0.text()))
+                || (exists|i: int, j: int| 0 <= i < j < yielded(items).len() && #[trigger] item_key(yielded(items), i) == #[trigger] item_key(yielded(items), j))),
+        }
+{
+        let ghost all = yielded(items);
+        let ghost mut gi: int = 0;
+
+        let items_ = x_into_iter(items);
+        let mut this = Qualifiers::with_capacity(x_size_hint_lower(&items_));
+        { 
+        proof { assert(all.skip(0) =~= all); }
+let mut iter_ = items_;
+ loop 
+
+            invariant
+                0 <= gi <= all.len(), all == yielded(items),
+                vstd::std_specs::iter::IteratorSpec::obeys_prophetic_iter_laws(&iter_),
+                vstd::std_specs::iter::IteratorSpec::decrease(&iter_) is Some,
+                vstd::std_specs::iter::IteratorSpec::remaining(&iter_) == all.skip(gi),
+                this.wf(), tfi_inv(all, gi, this.qualifiers@), tfi_distinct(all, gi),
+            ensures gi == all.len(),
+            decreases vstd::std_specs::iter::IteratorSpec::decrease(&iter_)->Some_0,
+{
+ match iter_.next() { Some((key, value)) => {
+            
+            let ghost qv = this.qualifiers@;
+match (match this.entry(key) { Ok(v_) => v_, Err(e_) => { proof { assert(!valid_key(all[gi].0.text())); } return Err(e_) } }) {
+                Entry::Occupied(_) => 
+{ proof {
+                        let p = pos_of(qv, item_key(all, gi));
+                        let i = choose|i: int| 0 <= i < gi && qv[p].0.0@ == #[trigger] item_key(all, i);
+                        assert(item_key(all, i) == item_key(all, gi));
+                    } 
+return Err(ParseError::InvalidQualifier)
+ }
+,
+                Entry::Vacant(entry) => {
+                    
+                        let ghost ix = entry.index as int;
+entry.insert(value);
+                        proof {
+                            lemma_tfi_step(all, gi, qv, ix, this.qualifiers@[ix]);
+                            assert(all.skip(gi).skip(1) =~= all.skip(gi + 1));
+                            gi = gi + 1;
+                        }
+
+                },
+            }
+        }, None => break, }
+ } }
+        
+        proof { assert(gi == all.len()); }
+Ok(this)
     }
 }
 
